@@ -215,6 +215,32 @@ where
     }
 }
 
+#[cfg(all(scale_info_verif, feature = "std"))]
+impl<T> Interner<T>
+where
+    T: Ord,
+{
+    /// Verification hook: the map and the vector describe the same bijection value <-> index.
+    pub fn verif_invariants(&self) -> Result<(), crate::prelude::string::String> {
+        use crate::prelude::format;
+        if self.map.len() != self.vec.len() {
+            return Err(format!(
+                "interner map has {} keys but vector has {} elements",
+                self.map.len(),
+                self.vec.len()
+            ));
+        }
+        for (k, &i) in self.map.iter() {
+            match self.vec.get(i) {
+                Some(v) if v == k => {}
+                Some(_) => return Err(format!("interner map points index {} at a different element", i)),
+                None => return Err(format!("interner map points at index {} beyond the vector", i)),
+            }
+        }
+        Ok(())
+    }
+}
+
 #[cfg(test)]
 mod tests {
     use super::*;
